@@ -217,3 +217,121 @@ def await_only_cycles(body):
         if ok:
             out |= c
     return out
+
+
+# ---------------------------------------------------------------------------------------
+# Variant-tracking exploration: removes the classic infeasible path
+#     r = match op() { Ok(_) => other(), Err(e) => Err(e) };  if let Err(e) = r { return }
+# by remembering, along a path, which enum variant a local was last *constructed* with and
+# following only the matching arm of a later `switch discriminant(local)`.
+
+def _block_effects(body, bb):
+    """list of (local, variant_idx|None|('copy', src)) in statement order; None = unknown"""
+    eff = []
+    blk = body.blocks[bb]
+    for st in blk["stmts"]:
+        if st["k"] == "setdiscr":
+            eff.append((st["dst"]["l"], None))
+            continue
+        dst = st["dst"]
+        if dst["p"]:
+            # writing a field of an enum local does not change its variant; deref writes unknown
+            continue
+        rv = st["rv"]
+        if rv["k"] == "agg" and rv.get("agg") == "adt" and "variant_idx" in rv:
+            eff.append((dst["l"], rv["variant_idx"]))
+        elif rv["k"] == "use":
+            op = rv["op"]
+            p = op.get("move") or op.get("copy")
+            if p is not None and not p["p"]:
+                eff.append((dst["l"], ("copy", p["l"])))
+            else:
+                eff.append((dst["l"], None))
+        else:
+            eff.append((dst["l"], None))
+    t = blk["term"]
+    if t["k"] == "call":
+        d = t["dst"]
+        if not d["p"]:
+            eff.append((d["l"], None))
+    return eff
+
+
+def _switch_subject(body, bb):
+    """(local, {value: target}, otherwise) when the block ends in `switch discriminant(local)`"""
+    t = body.blocks[bb]["term"]
+    if t["k"] != "switch":
+        return None
+    op = t["discr"]
+    p = op.get("move") or op.get("copy")
+    if p is None or p["p"]:
+        return None
+    # the discriminant read is normally in the same block
+    for st in reversed(body.blocks[bb]["stmts"]):
+        if st["k"] == "assign" and st["dst"]["l"] == p["l"] and not st["dst"]["p"]:
+            if st["rv"]["k"] == "discr" and not st["rv"]["place"]["p"]:
+                return (st["rv"]["place"]["l"], {v: tg for v, tg in t["arms"]}, t["otherwise"])
+            return None
+    return None
+
+
+def explore(body, start, avoid=(), goals=None, state=None, limit=200000):
+    """Variant-tracking forward exploration from block `start` (its statements are executed).
+    Returns (reached_blocks, witness_path_to_goal_or_None)."""
+    avoid = set(avoid)
+    goals = set(goals or ())
+    init = tuple(sorted((state or {}).items()))
+    seen = set()
+    reached = set()
+    stack = [(start, init, None)]
+    parents = {}
+    n = 0
+    while stack:
+        bb, st, par = stack.pop()
+        if bb in avoid:
+            continue
+        key = (bb, st)
+        if key in seen:
+            continue
+        seen.add(key)
+        parents[key] = par
+        reached.add(bb)
+        n += 1
+        if n > limit:
+            # give up tracking: fall back to plain reachability (sound over-approximation)
+            return reach(body, [start], avoid), path(body, start, goals, avoid) if goals else None
+        if bb in goals:
+            out = []
+            k = key
+            while k is not None:
+                out.append(k[0])
+                k = parents[k]
+            return reached, out[::-1]
+        d = dict(st)
+        for (l, v) in _block_effects(body, bb):
+            if v is None:
+                d.pop(l, None)
+            elif isinstance(v, tuple):
+                if v[1] in d:
+                    d[l] = d[v[1]]
+                else:
+                    d.pop(l, None)
+            else:
+                d[l] = v
+        succs = body.succ[bb]
+        sw = _switch_subject(body, bb)
+        if sw is not None and sw[0] in d:
+            val = d[sw[0]]
+            succs = [sw[1].get(val, sw[2])]
+        nst = tuple(sorted(d.items()))
+        for s in succs:
+            stack.append((s, nst, key))
+    return reached, None
+
+
+def reach_t(body, start, avoid=()):
+    return explore(body, start, avoid)[0]
+
+
+def path_t(body, start, goals, avoid=()):
+    return explore(body, start, avoid, goals)[1]
